@@ -1,0 +1,60 @@
+//go:build verif
+
+package daemon
+
+import (
+	"net"
+	"os"
+	"sync/atomic"
+	"time"
+)
+
+// VerifPauseFn, when set, is called at every protocol step of Activate (who =
+// the *daemondefs.SpawnConfig passed to Activate) and Serve (who = the
+// ServeOpts.Ready channel). It may block to control the interleaving.
+var verifPauseFn atomic.Pointer[func(point string, who any)]
+
+// VerifSetPauseFn installs (or with nil removes) the pause callback.
+func VerifSetPauseFn(f func(point string, who any)) {
+	if f == nil {
+		verifPauseFn.Store(nil)
+		return
+	}
+	verifPauseFn.Store(&f)
+}
+
+func verifPause(point string, who any) {
+	if f := verifPauseFn.Load(); f != nil {
+		(*f)(point, who)
+	}
+}
+
+// verifDaemonExit emulates what the operating system does when a daemon
+// process exits: connections that were accepted but never served are closed.
+// (Serve running as a goroutine would otherwise leave them open forever.)
+func verifDaemonExit(connCh <-chan net.Conn) {
+	for {
+		select {
+		case conn := <-connCh:
+			conn.Close()
+		default:
+			return
+		}
+	}
+}
+
+// VerifSetStartProcess replaces the function used to spawn the daemon process
+// and returns a function that restores the previous one.
+func VerifSetStartProcess(f func(name string, argv []string, attr *os.ProcAttr) error) (restore func()) {
+	old := startProcess
+	startProcess = f
+	return func() { startProcess = old }
+}
+
+// VerifSetTimeouts changes how long Activate waits for a spawned daemon and
+// how often it polls, and returns a function that restores the old values.
+func VerifSetTimeouts(spawnTimeout, waitPerLoop time.Duration) (restore func()) {
+	oldT, oldW := daemonSpawnTimeout, daemonSpawnWaitPerLoop
+	daemonSpawnTimeout, daemonSpawnWaitPerLoop = spawnTimeout, waitPerLoop
+	return func() { daemonSpawnTimeout, daemonSpawnWaitPerLoop = oldT, oldW }
+}
